@@ -215,7 +215,7 @@ func genHistory(r *simrt.Rand, c IdxCfg, nOps, nIds int, withLoads, withSearch b
 			if r.Bool(0.3) {
 				k = "loadsame"
 			}
-			ops = append(ops, IdxOp{K: k, Hdr: r.Bool(0.5)})
+			ops = append(ops, IdxOp{K: k, Hdr: r.Bool(0.5), Rd: r.Intn(2)})
 		case withSearch:
 			ops = append(ops, genSearch(r, c, grid))
 		}
@@ -579,6 +579,19 @@ func execC01(raw json.RawMessage, wantLog bool) (out Outcome) {
 				continue // empty-state round trip is C08's subject
 			}
 			target := newIndex(c.Cfg)
+			if op.K == "loadsame" {
+				// what a lagging follower does: the snapshot is loaded into the index that is in use
+				// (either the very same object, or a used index that holds other items)
+				if op.Rd == 1 {
+					t := &idxRun{cfg: c.Cfg, idx: target, model: map[int]*mItem{}, out: &Outcome{}}
+					for j := 0; j < 5; j++ {
+						t.applyMut(IdxOp{K: "ins", Id: 500 + j, Vec: genVec(simrt.NewRand(uint64(j)+7), c.Cfg.Dim, false, c.Cfg.Space == 3), Lvl: j % 2})
+					}
+				} else {
+					target = ir.idx
+				}
+				out.Stat("snapshot_loads_into_used_index", 1)
+			}
 			res := ir.saveLoad(IdxOp{Hdr: op.Hdr}, target)
 			if res.saveErr != nil || res.loadErr != nil || res.panicked != "" {
 				ir.logf("load skipped: save=%v load=%v panic=%v", res.saveErr, res.loadErr, res.panicked != "")
@@ -700,7 +713,7 @@ func init() {
 		},
 		Real:   []string{"index.Hnsw (Insert, Remove, GetVertex, Search, Save, Load)", "index/space", "utils.PriorityQueue", "math.Vector"},
 		Stub:   []string{"none (update is driven as storage/partition.go drives it: lookup, remove, merge metadata, insert at old level)"},
-		Probes: []string{"entry_point_removed", "snapshot_loads", "updates_applied", "final_state_has_links_to_tombstones", "searches"},
+		Probes: []string{"entry_point_removed", "snapshot_loads", "snapshot_loads_into_used_index", "updates_applied", "final_state_has_links_to_tombstones", "searches"},
 		Budget: func(tier string) (int, time.Duration) {
 			if tier == "thorough" {
 				return 400000, 40 * time.Minute
